@@ -640,7 +640,7 @@ def subst(e, f):
     return r
 
 
-_TAGS = {"elem", "param", "upvar", "var", "const", "constdef", "fn", "field", "as", "index", "bin", "un", "cast", "call",
+_TAGS = {"elem", "upcap", "param", "upvar", "var", "const", "constdef", "fn", "field", "as", "index", "bin", "un", "cast", "call",
          "agg", "discr", "old", "resume", "unknown", "not", "len", "subslice", "proj", "ovf", "repeat", "sym"}
 
 
